@@ -193,7 +193,7 @@ def renderClass (g : G) (w : W) (e : Elem) : Except String (G × W × Elem) :=
       | .cls => c.lit
       | .attrEscapedValue => unquote c.lit      -- (error case not modelled in the prototype)
       | _ => []
-    let (g, w) := twWriteStringLiteral g w (bs " class=\\\"" ++ joinWith (bs " ") names ++ bs "\\\"")
+    let (g, w) := twWriteStringLiteral g w (bs " class=\\\"" ++ quoteBody (htmlEscape (joinWith (bs " ") names)) ++ bs "\\\"")
     .ok (g, w, e)
   else
     let (g, v) := getVarName g
@@ -232,14 +232,14 @@ def renderAttributes (g : G) (w : W) (e : Elem) : Except String (G × W × Elem)
       (g, w)
     | none => (g, w)
   let (g, w) :=
-    if !e.id.isEmpty then twWriteStringLiteral g w (bs " id=\\\"" ++ htmlEscape e.id ++ bs "\\\"") else (g, w)
+    if !e.id.isEmpty then twWriteStringLiteral g w (bs " id=\\\"" ++ quoteBody (htmlEscape e.id) ++ bs "\\\"") else (g, w)
   let (g, w, e) ← renderClass g w e
   let rec go (as : List (GoStr × Attr)) (g : G) (w : W) : G × W :=
     match as with
     | [] => (g, w)
     | (_, a) :: rest =>
       if a.value.isEmpty then
-        let (g, w) := twWriteStringLiteral g w (bs " " ++ a.name)
+        let (g, w) := twWriteStringLiteral g w (bs " " ++ quoteBody a.name)
         go rest g w
       else if a.isBoolean then
         let (g, w, _) := twWriteIndent g w (bs "if ")
@@ -247,19 +247,19 @@ def renderAttributes (g : G) (w : W) (e : Elem) : Except String (G × W × Elem)
         let g := g.add a.origin r
         let (g, w, _) := twWrite g w (bs " {\n")
         let iw := { w with indent := w.indent + 1 }
-        let (g, iw) := twWriteStringLiteral g iw (bs " " ++ a.name)
+        let (g, iw) := twWriteStringLiteral g iw (bs " " ++ quoteBody a.name)
         let (g, _) := twClose g iw
         let (g, w, _) := twWriteIndent g w (bs "}\n")
         go rest g w
       else
-        let (g, w) := twWriteStringLiteral g w (bs " " ++ a.name ++ bs "=\\\"")
+        let (g, w) := twWriteStringLiteral g w (bs " " ++ quoteBody a.name ++ bs "=\\\"")
         if a.isDynamic then
           let (g, w, _) := twWriteIndent g w (bs "if _, __err = __buf.WriteString(goht.EscapeString(")
           let (g, w) := writeFormattedText g w a.origin
           let (g, w, _) := twWrite g w (bs ")+\"\\\"\"); __err != nil { return }\n")
           go rest g w
         else
-          let (g, w) := twWriteStringLiteral g w (htmlEscape a.value ++ bs "\\\"")
+          let (g, w) := twWriteStringLiteral g w (quoteBody (htmlEscape a.value) ++ bs "\\\"")
           go rest g w
   let (g, w) := go e.attrs g w
   let (g, w) :=
@@ -339,7 +339,7 @@ def emitNode (n : Node) (needsClose : Bool) (nextSib : Option Node) (g : G) (w :
   | .doctype _ => .ok (twWriteStringLiteral g w (bs "<!DOCTYPE html>"))
   | .element e kids => do
     let (g, w) := if e.nukeOuter then twWriteStringLiteral g w nukeBefore else (g, w)
-    let (g, w) := twWriteStringLiteral g w (bs "<" ++ e.tag)
+    let (g, w) := twWriteStringLiteral g w (bs "<" ++ quoteBody e.tag)
     let (g, w, _) ← renderAttributes g w e
     let (g, w) := twWriteStringLiteral g w (bs ">")
     if e.isSelfClosing then pure (g, w) else
@@ -347,13 +347,13 @@ def emitNode (n : Node) (needsClose : Bool) (nextSib : Option Node) (g : G) (w :
     let onlyNl := match kids with | [.newLine _] => true | _ => false
     let (g, w) ← if !onlyNl then emitKids kids false g w else pure (g, w)
     let (g, w) := if e.nukeInner then twWriteStringLiteral g w nukeBefore else (g, w)
-    let (g, w) := twWriteStringLiteral g w (bs "</" ++ e.tag ++ bs ">")
+    let (g, w) := twWriteStringLiteral g w (bs "</" ++ quoteBody e.tag ++ bs ">")
     let (g, w) := if e.nukeOuter then twWriteStringLiteral g w nukeAfter else twWriteStringLiteral g w (bs "\\n")
     pure (g, w)
   | .newLine _ => .ok (twWriteStringLiteral g w (bs "\\n"))
   | .comment o _ kids => do
     if !o.lit.isEmpty then
-      pure (twWriteStringLiteral g w (bs "<!--" ++ htmlEscape o.lit ++ bs "-->\\n"))
+      pure (twWriteStringLiteral g w (bs "<!--" ++ quoteBody (htmlEscape o.lit) ++ bs "-->\\n"))
     else
       let (g, w) := twWriteStringLiteral g w (bs "<!--")
       let (g, w) ← emitKids kids false g w
@@ -368,7 +368,7 @@ def emitNode (n : Node) (needsClose : Bool) (nextSib : Option Node) (g : G) (w :
         s' ++ repeatStr (bs "&#x000A;") ((start - s'.length) / 2)
       else s
     if t.typ == .plainText || t.typ == .preserveText || w.isUnescaped then .ok (twWriteStringLiteral g w s)
-    else .ok (twWriteStringLiteral g w (htmlEscape s))
+    else .ok (twWriteStringLiteral g w (quoteBody (htmlEscape t.lit)))
   | .unescape _ _ kids => do
     let w := { w with isUnescaped := true }
     let (g, w) ← emitKids kids false g w
